@@ -597,6 +597,9 @@ def run_directed(res):
         res.count("directed_scenarios")
         res.nontrivial("directed", name)
         if got != expected:
+            # the listed finding is the NameError for the comprehension target; any other wrong result is new
+            if fid == "C19/toplevel-comprehension-target-declared" and got != "NameError:q":
+                fid = None
             res.violate("directed-" + name, "template %r with %r (strict_undefined=%s) gives %r, expected %r" % (text, ctx, strict, got, expected),
                         finding=fid, witness=text)
 
